@@ -458,3 +458,20 @@ func TestWithTheDebugSwitchOn(t *testing.T) {
 		ev.Case(fmt.Sprintf("debug|%v|%s|%v", version, mptkit.Show(target), h), version > 0 && interesting(target), "debug-switch-on")
 	})
 }
+
+// Value lengths: a one-key trie's root against the reference for every value length up to three times 8704 bytes.
+func TestRootOverValueLengths(t *testing.T) {
+	ev.Guard(t, "TestRootOverValueLengths", func() {
+		seed := ev.SeedFor("TestRootOverValueLengths")
+		version := int64(seed % 3)
+		key := []string{"aabbccdd", "12", "0123456789abcdef0123456789abcdef"}[seed%3]
+		for L := 1; L <= 26200; L++ {
+			val := bytes.Repeat([]byte{byte(L), 0x3a, byte(seed), byte(L >> 8)}, L/4+1)[:L]
+			content := map[string][]byte{key: val}
+			if got, want := buildRoot(t, content, version), refmpt.Root(content, version); !bytes.Equal(got, want) {
+				t.Fatalf("key %q with a value of %d bytes (version %d): root %x, reference %x", key, L, version, got, want)
+			}
+		}
+		ev.Case(fmt.Sprintf("root-over-lengths/%s/%d", key, version), true, "value-length-sweep-1..26200")
+	})
+}
